@@ -77,6 +77,19 @@ CHECKS = {
              "request's id (value and type), nothing for a notification, nothing invented; session header = most recent id issued on a 2xx.",
         note="Trusts: the fake raises httpx timeouts at the configured instant (httpcore bypassed); connection pooling not simulated.",
         technique=TECH + "; systematic HTTP fault enumeration at the httpx transport seam + seeded fault sequences, reference-decoder oracle"),
+    "C12": dict(
+        level="exploration", ref="DESIGN.md section 5 C12",
+        text="The real sse_client()/SSETransport and httpx client layer run on SimHTTPTransport: GET /sse is a live event stream whose bytes are "
+             "cut into pieces (n-byte, inside UTF-8 / CRLF / 'data: '), POSTs are answered per scenario. Seeded search over establishment "
+             "outcomes {endpoint announced in 7 forms, 4xx/5xx, connect error/timeout, empty / never-announcing / ending stream, announcement "
+             "around the timeout} x per-request modes {200 body, 202 then event, event then 202, 202 and silence, other status, exception, bad "
+             "JSON} with POST/event order decided by virtual time, tie and loop-iteration offset x server pushes x stream death x exit paths "
+             "{normal, exception, outer cancel scope, task.cancel()} at generated instants. Oracle: entered only after the announcement else "
+             "raise within the timeout; exactly one terminal per request with its id (value and type) and the server's content when it answered "
+             "in time; stream messages once and in order; after exit no task, open httpx client, open event stream or open memory stream. "
+             "Response-vs-following-notification order on the event stream is known finding F-C12-1.",
+        note="Trusts: the fake raises httpx timeouts (incl. idle-stream read timeout) at the configured instants; keep-alive comments keep the stream alive unless the scenario kills it.",
+        technique=TECH + "; POST/event race exploration, chunking, stream death and cancellation injection; exactly-once + resource-release oracles"),
     "C13": dict(
         level="exploration", ref="DESIGN.md section 5 C13",
         text="The real stdio reader + BatchProcessor run on a FakeProcess; the version comes from a simulated handshake or the setter, drawn "
